@@ -70,6 +70,19 @@ type kvElection struct {
 	// termCancel ends the context of the current leadership term (guarded by mu).
 	termCancel context.CancelFunc
 
+	// OnPromote and OnDemote are started in the order of the transitions they
+	// belong to: every transition takes a ticket while it holds mu, and a
+	// callback is started only after the callbacks with smaller tickets have
+	// been started. The goroutine that demotes may be slow between clearing
+	// the claim and running OnDemote, and the instance may have re-acquired in
+	// the meantime; without the tickets OnPromote of the new term could then
+	// run before OnDemote of the old one.
+	cbTickets     uint64   // next ticket (guarded by mu)
+	demoteTickets []uint64 // tickets of demotions whose OnDemote has not been started (guarded by mu)
+	cbMu          sync.Mutex
+	cbStarted     uint64        // tickets below this value have been started (guarded by cbMu)
+	cbWake        chan struct{} // closed when cbStarted changes (guarded by cbMu)
+
 	onPromote func(ctx context.Context, token string)
 	onDemote  func()
 
@@ -516,9 +529,12 @@ func (e *kvElection) becomeLeader(token string, rev uint64) {
 				zap.String("token", token),
 			)...,
 		)
+		ticket := e.cbTickets
+		e.cbTickets++
 		e.wg.Add(1)
 		go func() {
 			defer e.wg.Done()
+			e.startCallback(ticket)
 			defer func() {
 				if r := recover(); r != nil {
 					log := e.getLogger()
@@ -657,6 +673,8 @@ func (e *kvElection) becomeFollowerLocked() bool {
 			e.termCancel()
 			e.termCancel = nil
 		}
+		e.demoteTickets = append(e.demoteTickets, e.cbTickets)
+		e.cbTickets++
 	}
 
 	e.recordTransition(fromState, StateFollower)
@@ -701,9 +719,18 @@ func (e *kvElection) observeLeader(id string, rev uint64) {
 
 // runOnDemote invokes the OnDemote callback, if one is registered.
 func (e *kvElection) runOnDemote(reason string) {
-	e.mu.RLock()
+	e.mu.Lock()
 	onDemote := e.onDemote
-	e.mu.RUnlock()
+	ticketed := len(e.demoteTickets) > 0
+	var ticket uint64
+	if ticketed {
+		ticket = e.demoteTickets[0]
+		e.demoteTickets = e.demoteTickets[1:]
+	}
+	e.mu.Unlock()
+	if ticketed {
+		e.startCallback(ticket)
+	}
 
 	if onDemote != nil {
 		log := e.getLogger()
@@ -714,6 +741,39 @@ func (e *kvElection) runOnDemote(reason string) {
 		)
 		onDemote()
 	}
+}
+
+// startCallback blocks until every callback with a smaller ticket has been
+// started, then counts this one as started.
+func (e *kvElection) startCallback(ticket uint64) {
+	for {
+		wake := e.callbackTurn(ticket)
+		if wake == nil {
+			return
+		}
+		<-wake
+	}
+}
+
+// callbackTurn returns nil when it is the ticket's turn (and counts it as
+// started), otherwise a channel that is closed when the turn moves on.
+func (e *kvElection) callbackTurn(ticket uint64) chan struct{} {
+	e.cbMu.Lock()
+	defer e.cbMu.Unlock()
+	if e.cbStarted < ticket {
+		if e.cbWake == nil {
+			e.cbWake = make(chan struct{})
+		}
+		return e.cbWake
+	}
+	if e.cbStarted == ticket {
+		e.cbStarted++
+		if e.cbWake != nil {
+			close(e.cbWake)
+			e.cbWake = nil
+		}
+	}
+	return nil
 }
 
 func (e *kvElection) Stop() error {
@@ -740,6 +800,8 @@ func (e *kvElection) Stop() error {
 	if wasLeader {
 		e.recordLeaderDuration()
 		e.leaderStartTime.Store(time.Time{})
+		e.demoteTickets = append(e.demoteTickets, e.cbTickets)
+		e.cbTickets++
 	}
 
 	e.isLeader.Store(false)
